@@ -28,6 +28,9 @@ for f in sorted(glob.glob(os.path.join(V, "seeded", "*", "meta.json"))):
     m = json.load(open(f))
     det = m.get("detected_by") or {}
     ds = []
+    if m.get("obsolete"):
+        det = {}
+        ds.append("no longer a violation: " + m["obsolete"][:160])
     for c, r in sorted(det.items()):
         if r.get("exit") == 1:
             ds.append("%s (%s)" % (c, ", ".join(r.get("signatures", [])[:2])[:90]))
